@@ -351,7 +351,15 @@ def check(pid, tier, seed):
                        "args": c.args, "args_shown": [props.show_arg(x) for x in c.args],
                        "observed_implementation": a,
                        ("expected_by_spec" if c.kind == "prop" else "model_says"): m, "seed": seed}
-                if c.kind == "prop":
+                if c.margs is not None:
+                    rec["margs"] = c.margs
+                variant = c.kind == "corr" and c.fn.endswith(props.VARIANT_SUFFIXES)
+                if variant:
+                    # the same question asked another way (after other uses, through an instance, with components omitted):
+                    # the model of the plain question is the reference, and the plain question itself is in the stream too
+                    rec["check"] = "variant"
+                    rec["expected_by_spec"] = rec.pop("model_says") + "   (the answer to the plain question)"
+                if c.kind == "prop" or variant:
                     if (c.fn, a, m) not in seen_v or len(violations) < 5:
                         violations.append(rec)
                     seen_v.add((c.fn, a, m))
@@ -446,10 +454,15 @@ def replay(pid, path):
     with Lock():
         tr = translate()
         ok, _ = build_model()
+    if rec.get("check") == "order" or rec.get("kind") == "history":
+        print(json.dumps({k: v for k, v in rec.items() if k != "args"}, indent=1)[:3000])
+        print("replay: this record is a call whose outcome depended on the calls before it; re-running the check")
+        return check(pid, "quick", int(rec.get("seed", 0)))
     line = "\t".join([rec["call"], *rec["args"]])
+    mline = "\t".join([rec["call"], *rec.get("margs", rec["args"])])
     facts_path = os.path.join(COQ, "theories", "Gen", "facts.json")
     a = run_impl([line], facts_path)[0]
-    m = run_model([line])[0] if ok else "?"
+    m = run_model([mline])[0] if ok else "?"
     print(f"call={rec['call']} args={rec.get('args_shown')}\n implementation: {a}\n model/spec:     {m}")
     if a != m:
         print(f"VIOLATION property={pid} replay={path}")
